@@ -870,6 +870,7 @@ def check(run):
     for v in vc:
         v.batch = (cases, procs_main)
     run.violations += vg + vc
+    run.violations += local_zone_runs(run, cases, impl, stats)
     run.coverage["oracle_cases"] = len(cases) + len(grid)
     if run.broken and not run.violations:
         # something no longer checks but no generated input fails the property: search at higher volume
@@ -896,6 +897,51 @@ def check(run):
     ]
 
 
+TZ_ZONES = ["JST-9", "EST5EDT"]          # POSIX TZ strings: no tz database needed
+
+
+def impl_run(cases, procs=None, tz=None):
+    """common.run_impl, the workers' process time zone set to `tz` (None: as inherited)."""
+    if tz is None:
+        return common.run_impl("c15_impl", cases, procs=procs)
+    old = os.environ.get("TZ")
+    os.environ["TZ"] = tz
+    try:
+        return common.run_impl("c15_impl", cases, procs=procs)
+    finally:
+        if old is None:
+            os.environ.pop("TZ", None)
+        else:
+            os.environ["TZ"] = old
+
+
+def local_zone_runs(run, cases, impl, stats):
+    """A share of the cases again in workers whose process time zone is not UTC: a naive datetime is UTC by the
+    library's rule, an aware one carries its own offset, so every answer must be the same as in the first run."""
+    idx = [i for i, c in enumerate(cases) if "dt" in c["in"] and c["in"].get("off") is None]
+    idx = idx[:1500] + list(range(0, len(cases), max(1, len(cases) // 1500)))
+    idx = sorted(set(idx))
+    sub = [cases[i] for i in idx]
+    out = []
+    for tz in TZ_ZONES:
+        res = impl_run(sub, procs=min(common.NCPU, 8), tz=tz)
+        nd = 0
+        for i, c, r in zip(idx, sub, res):
+            if r != impl[i]:
+                nd += 1
+                if nd <= 20:
+                    v = Violation("the answer depends on the time zone of the process (TZ=%s gives %s, TZ unset/UTC gives %s): %s"
+                                  % (tz, r, impl[i], describe(c, split_result(r)[0])),
+                                  {"cases": [c], "check": "process time zone", "tz": tz, "utc_answer": impl[i]}, None)
+                    out.append(v)
+        for v in oracle(sub, res, stats):
+            v.replay["tz"] = tz
+            out.append(v)
+        stats["local_zone_cases_" + tz] = len(sub)
+        stats["local_zone_differences_" + tz] = nd
+    return out
+
+
 def reproducible(v):
     """A replay is run in a fresh interpreter.  If the failure does not show there on its own (it depended on what
     the same worker process had handled before, e.g. a tzinfo object seen earlier), the replay gets the cases that
@@ -903,11 +949,15 @@ def reproducible(v):
     batch = getattr(v, "batch", None)
     kind = str(v.replay.get("check")).split(" (")[0].split(": ")[0]
 
+    tz = v.replay.get("tz")
+
     def shows(cs):
         try:
-            res = common.run_impl("c15_impl", cs, procs=1)
+            res = impl_run(cs, procs=1, tz=tz)
         except RuntimeError:
             return False
+        if kind == "process time zone":
+            return any(r != v.replay.get("utc_answer") for r in res[-1:])
         return any(str(x.replay.get("check")).split(" (")[0].split(": ")[0] == kind for x in oracle(cs, res))
 
     cs = v.replay["cases"]
@@ -945,10 +995,16 @@ def first_per_kind(violations):
 def replay(payload):
     r = payload["replay"]
     cases = r["cases"]
-    impl = common.run_impl("c15_impl", cases, procs=1)
+    impl = impl_run(cases, procs=1, tz=r.get("tz"))
     for c, i in zip(cases, impl):
-        print("replay %s %s/%s %s -> %s" % (c["k"], c["p"], c["c"], c["in"], i))
+        print("replay%s %s %s/%s %s -> %s" % (" TZ=" + r["tz"] if r.get("tz") else "", c["k"], c["p"], c["c"], c["in"], i))
     v = oracle(cases, impl)
+    if r.get("tz") and r.get("check") == "process time zone":
+        utc = impl_run(cases, procs=1, tz="UTC")
+        if utc != impl:
+            print("  the answers differ from those of a process in UTC: %s" % utc)
+            print("VIOLATION property=C15 replay=(given)")
+            return 1
     if v:
         for x in v[:3]:
             print("  " + x.what)
